@@ -5,7 +5,8 @@ from props.hist import PLATFORMS, history, upd_size
 RULE = ("prefix (updates of boundary sizes, optionally set_input_offset at a valid offset first, finalize / count "
         "queries, clones) then reset, count, then a suffix replayed identically on the reset hasher and on a fresh "
         "hasher of the same mode (observations must agree pairwise and with the model); prefixes that leave count() == 0 "
-        "without being initial (offset set, nothing or a zero-length update absorbed); trait Reset variants; clone "
+        "without being initial (offset set, nothing or a zero-length update absorbed); trait Reset variants; clone and "
+        "clone_from (into used destinations with deeper and shallower state) "
         "divergence. Non-trivial = distinct history whose prefix absorbed more than one chunk or used an offset.")
 MODELLED = ["derived Clone as copying the model record"]
 ASSUMPTIONS = []
@@ -56,6 +57,17 @@ def gen_cases(seed, tier):
             m = rng.choice(ms)
             a, b1, b2 = bspec(rng, upd_size(rng, plat, 10)), bspec(rng, upd_size(rng, plat, 10)), bspec(rng, upd_size(rng, plat, 10))
             lines.append(f"H {m} {plat} u:0:{a} cl:0 u:0:{b1} f:1 c:1 u:1:{b2} f:0 c:0 f:1 c:1 r:1 f:0 c:0 c:1")
+        # clone_from into a USED destination (deeper / shallower CV stack than the source, other key): the clone must
+        # equal the source and stay independent of it
+        for k in range(6 if tier == "thorough" else 3):
+            m = rng.choice(ms)
+            deep = bspec(rng, rng.choice([7 * CHUNK + 5, 3 * CHUNK, 40 * CHUNK + 1, 2 * CHUNK]))
+            srcb = bspec(rng, rng.choice([0, 1, 1025, 5 * CHUNK + 3]))
+            tail = bspec(rng, rng.choice([1, 1024, 3000]))
+            # instance 0: source, instance 1: deep hasher used as destination, instance 2: the clone_from result
+            lines.append(f"H {m} {plat} u:0:{srcb} n u:1:{deep} clf:0:1 c:2 f:2 u:2:{tail} c:2 f:2 f:0 c:0 u:0:{tail} f:0 f:2 f:1")
+            # the other direction (fresh destination, deep source) and a reader
+            lines.append(f"H {m} {plat} u:0:{deep} n clf:0:1 c:2 f:2 u:2:{tail} f:2 f:0 xo:0 rf:0:70 xo:2 rs:1:200 rcf:0:1 rp:2 rf:2:65 rf:0:65 rp:0 rp:2")
     # regression corpus: the reset-after-offset defect (fixed: 93483ed)
     lines.append("H hash detect so:0:1024 u:0:hex/00 r:0 c:0 f:0")
     lines.append("H hash portable so:0:4096 u:0:paint/0/3000 r:0 c:0 u:0:paint/0/5000 f:0 c:0")
